@@ -429,6 +429,11 @@ def run_shard(tier, seed, shard, nshards, res):
                     if op == 'ADV':
                         clock.advance(args[0])
                         continue
+                    if op == 'FREEZE':
+                        clock.frozen = args[0]
+                        if not args[0]:
+                            clock.advance(gen.TICK)
+                        continue
                     drv.step(op, *args, **kw)
                     res.count('history_calls')
                     res.count('evaluations')
